@@ -28,8 +28,12 @@
 (***************************************************************************)
 EXTENDS Naturals, Sequences, FiniteSets, TLC, Json
 
-CONSTANTS Table,     \* option table of the real backend at run time: sequence of [name, def, chars]
-          Universe   \* set of cases [level: "backend" | "cli", opts: sequence of occurrences]
+CONSTANTS Universe(_), \* tier -> set of cases [level: "backend" | "cli", opts: sequence of occurrences]
+          Tier          \* (an operator, so that TLC builds the set when Init is evaluated, not at start-up)
+
+\* option table of the real backend at run time (harness dump of GoBackend.Options(), table
+\* order): sequence of [name, def, chars].  A plain definition: TLC reads the file once.
+Table == ndJsonDeserialize("table.ndjson")
 
 VARIABLES st,        \* abstract settings (record, see S0)
           cs,        \* the case being run
@@ -109,17 +113,16 @@ TableNames   == {Table[j].name : j \in 1..Len(Table)}
 HelpOnly     == TableNames \ DocNames
 BoolNames    == DocBoolNames \cup HelpOnly
 Names        == BoolNames \cup ValueNames
-DocDefault   == [n \in BoolNames |->
-                   IF n \in DocBoolNames
-                   THEN DocBool[CHOOSE i \in 1..Len(DocBool) : DocBool[i][1] = n][2]
-                   ELSE Table[CHOOSE j \in 1..Len(Table) : Table[j].name = n].def]
+\* the switches that are documented as enabled by default
+DocOn        == {DocBool[i][1] : i \in {k \in 1..Len(DocBool) : DocBool[k][2]}} \cup
+                {Table[j].name : j \in {k \in 1..Len(Table) : Table[k].name \in HelpOnly /\ Table[k].def}}
 
 ASSUME Cardinality(DocBoolNames) = Len(DocBool)      \* no name transcribed twice
 
 ----------------------------------------------------------------------------
 (* Abstract state and the effect of one option.                             *)
 
-S0 == [feat   |-> DocDefault,       \* switch name -> BOOLEAN
+S0 == [on     |-> DocOn,            \* the switches that are on (subset of BoolNames)
        style  |-> DefaultStyle,
        tmpl   |-> NoTemplate,
        given  |-> FALSE,            \* a template option was given
@@ -139,7 +142,8 @@ AApply(s, o) ==
   LET val == Value(o) IN
   IF o.n \in BoolNames THEN
        LET b == CheckBool(val) IN
-       IF b = "E" THEN {Fail(s)} ELSE {[s EXCEPT !.feat[o.n] = (b = "T")]}
+       IF b = "E" THEN {Fail(s)}
+       ELSE {[s EXCEPT !.on = IF b = "T" THEN s.on \cup {o.n} ELSE s.on \ {o.n}]}
   ELSE IF o.n = "naming_style" THEN
        IF val \in DocStyles THEN {[s EXCEPT !.style = val]} ELSE {Fail(s)}
   ELSE IF o.n = "template" THEN
@@ -155,13 +159,13 @@ AApply(s, o) ==
   ELSE {s}   \* not a documented name: outside the statement (never in a universe)
 
 \* Documented as invalid: README "apache_warning and apache_adaptor ... are mutually exclusive".
-MustReject(f) == f["apache_warning"] /\ f["apache_adaptor"]
+MustReject(f) == "apache_warning" \in f /\ "apache_adaptor" \in f
 \* The documentation is unclear ("requires ..." next to a trouble-shooting row that describes a
 \* silent no-op) or silent: rejecting and accepting are both allowed.
-MayReject(f) == \/ f["with_field_mask"] /\ ~f["with_reflection"]
-                \/ f["streamx"] /\ ~f["thrift_streaming"]
-                \/ f["snake_style_json_tag"] /\ f["lower_camel_style_json_tag"]
-                \/ f["always_gen_json_tag"] /\ ~f["gen_json_tag"]
+MayReject(f) == \/ "with_field_mask" \in f /\ "with_reflection" \notin f
+                \/ "streamx" \in f /\ "thrift_streaming" \notin f
+                \/ "snake_style_json_tag" \in f /\ "lower_camel_style_json_tag" \in f
+                \/ "always_gen_json_tag" \in f /\ "gen_json_tag" \notin f
 
 \* the set of final states: documented implications, then documented-invalid combinations
 AFinish(s, level) ==
@@ -169,26 +173,26 @@ AFinish(s, level) ==
   LET \* README enable_nested_struct: "Only valid with the slim or raw_struct template; thriftgo
       \* automatically switches to slim if this option is set and no template is specified."
       \* (command-line level).  An explicit template=default is not a documented input: either.
-      ts == IF level = "cli" /\ s.feat["enable_nested_struct"]
+      ts == IF level = "cli" /\ "enable_nested_struct" \in s.on
             THEN IF ~s.given THEN {"slim"}
                  ELSE IF s.tmpl \in DocTemplates THEN {s.tmpl} ELSE {s.tmpl, "slim"}
             ELSE {s.tmpl}
   IN UNION { LET \* README gen_deep_equal: "Silently disabled when template=slim."
-                 f == IF t = "slim" THEN [s.feat EXCEPT !["gen_deep_equal"] = FALSE] ELSE s.feat
+                 f == IF t = "slim" THEN s.on \ {"gen_deep_equal"} ELSE s.on
                  es == IF MustReject(f) THEN {TRUE} ELSE IF MayReject(f) THEN {TRUE, FALSE} ELSE {FALSE}
-             IN {[s EXCEPT !.tmpl = t, !.feat = f, !.err = e] : e \in es}
+             IN {[s EXCEPT !.tmpl = t, !.on = f, !.err = e] : e \in es}
            : t \in ts }
 
 \* what is observable of a final state; after an error only the error is
 Outcome(s) ==
   IF s.err THEN [err |-> TRUE, on |-> {}, style |-> "", tmpl |-> "", prefix |-> "", repl |-> {}]
-  ELSE [err |-> FALSE, on |-> {n \in BoolNames : s.feat[n]}, style |-> s.style, tmpl |-> s.tmpl,
+  ELSE [err |-> FALSE, on |-> s.on, style |-> s.style, tmpl |-> s.tmpl,
         prefix |-> s.prefix, repl |-> s.repl]
 
 ----------------------------------------------------------------------------
 (* The machine.                                                             *)
 
-Init == /\ cs \in Universe
+Init == /\ cs \in Universe(Tier)
         /\ st = S0
         /\ todo = 1..Len(cs.opts)
         /\ ph = "apply"
@@ -209,7 +213,7 @@ Spec == Init /\ [][Next]_vars
 ----------------------------------------------------------------------------
 (* Design-level invariants of (A).                                          *)
 
-TypeOK == /\ DOMAIN st.feat = BoolNames
+TypeOK == /\ st.on \subseteq BoolNames
           /\ st.style \in DocStyles
           /\ st.tmpl \in DocTemplates \cup {NoTemplate}
           /\ ph \in {"apply", "done"}
@@ -218,12 +222,12 @@ TypeOK == /\ DOMAIN st.feat = BoolNames
 \* has its documented default (except the documented implication slim => no deep-equal)
 OnlyOwnKey == \A n \in BoolNames :
                  (\A i \in 1..Len(cs.opts) : cs.opts[i].n # n) /\ ~st.err
-                 => \/ st.feat[n] = DocDefault[n]
-                    \/ n = "gen_deep_equal" /\ st.tmpl = "slim" /\ ~st.feat[n]
+                 => \/ (n \in st.on) = (n \in DocOn)
+                    \/ n = "gen_deep_equal" /\ st.tmpl = "slim" /\ n \notin st.on
 Implications == (ph = "done" /\ ~st.err) =>
-                  /\ st.tmpl = "slim" => ~st.feat["gen_deep_equal"]
-                  /\ ~MustReject(st.feat)
-                  /\ (cs.level = "cli" /\ st.feat["enable_nested_struct"]) =>
+                  /\ st.tmpl = "slim" => "gen_deep_equal" \notin st.on
+                  /\ ~MustReject(st.on)
+                  /\ (cs.level = "cli" /\ "enable_nested_struct" \in st.on) =>
                         (st.tmpl \in DocTemplates \/ st.given)
 AInvariants == TypeOK /\ OnlyOwnKey /\ Implications
 
